@@ -520,8 +520,8 @@ def _convert_policy_json_to_yaml(namespace, policy_file, output_file=None):
     if file_policies:
         yaml_format_rules.append(extra_rules_text)
     for file_rule, check_str in file_policies.items():
-        rule_text = ('"%(name)s": %(check_str)s\n' %
-                     {'name': file_rule,
+        rule_text = ('%(name)s: %(check_str)s\n' %
+                     {'name': jsonutils.dumps(file_rule),
                       'check_str': _quote_check_str(check_str)})
         yaml_format_rules.append(rule_text)
 
